@@ -1329,3 +1329,45 @@ _add(POOL["stiff_p2_triangle"].variant("@Wall", jit_kwargs={"cffi_extra_compile_
                                        tags=("family", "jitonly")))
 _add(POOL["stiff_p2_triangle"].variant("@Werror", jit_kwargs={"cffi_extra_compile_args": ["-Werror"]},
                                        tags=("family", "jitonly")))
+
+
+# ---- widened along the hints of round 6 (before its changes were known) -------------------------
+# many interchangeable terminals on one space: any ordering by id(), address or a tying key shows
+_add(
+    Request(
+        "many_ties_tri",
+        "forms",
+        [
+            _mesh("triangle"),
+            'el = basix.ufl.element("Lagrange", "triangle", 1)',
+            "V = ufl.FunctionSpace(mesh, el)",
+            "u = ufl.TrialFunction(V)",
+            "v = ufl.TestFunction(V)",
+            "cs = [ufl.Coefficient(V) for _ in range(6)]",
+            "ks = [ufl.Constant(mesh) for _ in range(3)]",
+            "a = sum(c * u * v for c in cs) * ufl.dx + sum(k * c.dx(0) * u * v for k, c in zip(ks, cs)) * ufl.dx "
+            "+ sum(cs[i] * cs[5 - i] * u * v for i in range(3)) * ufl.ds + ks[0] * ks[1] * ks[2] * u * v * ufl.dx(7)",
+            "objs = [a]",
+        ],
+        tags=("kern", "multi-el"),
+    )
+)
+# sum factorisation with a coefficient, real and complex
+_add(
+    Request(
+        "tp_mass_coeff_q2_quad",
+        "forms",
+        POOL["tp_stiff_q2_quad"].stmts[:-2] + [
+            "f = ufl.Coefficient(V)",
+            "a = f * ufl.inner(u, v) * ufl.dx + ufl.inner(ufl.grad(u), ufl.grad(v)) * ufl.dx",
+            "objs = [a]",
+        ],
+        tags=("kern", "family"),
+    )
+)
+_add(POOL["tp_mass_coeff_q2_quad"].variant("@sumfact", options={"sum_factorization": True},
+                                           tags=("family", "kern")))
+_add(POOL["tp_mass_coeff_q2_quad"].variant("@sumfact-complex", options={"sum_factorization": True,
+                                                                        "scalar_type": "complex128"},
+                                           tags=("family", "kern")))
+_add(Combined("combo:expr_facet_tri+expr_p1_tri_2pts", ["expr_facet_tri", "expr_p1_tri_2pts"]))
